@@ -34,6 +34,16 @@ type Plan struct {
 	// reported again by a fresh process; the other oracles ignore it.
 	Jitter int `json:"jitter,omitempty"`
 	// environment seams: simulated clock, CPU count, package-level randomness
+	// Collector faults. GCPre: a full garbage collection runs at the first few
+	// preemptions that fire INSIDE library calls (a collection can start at any
+	// instruction; memory the library hides from the collector - behind a
+	// uintptr, say - is freed under its feet). EphArgs: string arguments are
+	// handed over as fresh copies that die with the call, and GCOps lists the
+	// operations (task, index) before which a collection runs, so that the
+	// allocator may hand the same block to the next argument.
+	GCPre      bool    `json:"gc_pre,omitempty"`
+	EphArgs    bool    `json:"eph_args,omitempty"`
+	GCOps      [][]int `json:"gc_ops,omitempty"`
 	TickNs     int64   `json:"tick_ns,omitempty"`
 	ClockJumps []int64 `json:"clock_jumps,omitempty"`
 	NumCPU     int     `json:"ncpu,omitempty"`
@@ -188,7 +198,7 @@ func (p *Plan) simConfig(trace bool) rt.Config {
 		pd[i] = uint8(d)
 	}
 	return rt.Config{Sched: p.Sched, PreSched: p.PreSched, PoolDec: pd, Preempt: p.Preempt, MaxPoints: p.MaxPoints, Trace: trace,
-		TickNs: p.TickNs, ClockJumps: p.ClockJumps, NumCPU: p.NumCPU, RandSeed: p.Seed | 1}
+		TickNs: p.TickNs, ClockJumps: p.ClockJumps, NumCPU: p.NumCPU, RandSeed: p.Seed | 1, GCPre: p.GCPre}
 }
 
 // argBytes: total size of the string arguments of the plan (long inputs and
